@@ -19,7 +19,8 @@ ISOLATE = "fork"
 PROPS = ("C01", "C02", "C03", "C04", "C05", "C15")
 
 ASSETS = ["EQ:AAA", "EQ:BBB", "EQ:CCC", "EQ:DDD", "EQ:EEE", "EQ:FFF", "EQ:GGG", "EQ:HHH"]
-PIDS = ["p1", "p2", "p3", "p4", "p5", "p6"]
+PIDS_DEFAULT = ["p1", "p2", "p3", "p4", "p5", "p6"]
+PIDS = PIDS_DEFAULT
 
 FAULT_KINDS = (
     "neg_amount", "overdraw_account", "overdraw_portfolio", "overfund_portfolio", "exact_balance",
@@ -98,6 +99,11 @@ def generate(rng, focus, tier="quick"):
         n_assets = rng.randrange(5, 9)
         max_pf = rng.randrange(4, 7)
     assets = ASSETS[:n_assets]
+    # portfolio ids: usually p1, p2, ... in creation order; sometimes names whose sorted order differs from the
+    # order of creation
+    pids_run = list(PIDS_DEFAULT)
+    if rng.random() < 0.5:
+        pids_run = rng.sample(["b", "a", "p10", "p2", "Z", "m", "p1", "0009"], 6)
     r = rng.random()
     if r < 0.3:
         fee = {"kind": "zero"}
@@ -139,9 +145,9 @@ def generate(rng, focus, tier="quick"):
 
     # warm-up: get money and a portfolio in place so that runs make progress
     emit({"k": "asub", "amt": {"v": rng.choice([1e5, 1e6, 5e6, 987654.32])}})
-    emit({"k": "mkpf", "pid": PIDS[0]})
-    sh["pids"].append(PIDS[0])
-    emit({"k": "psub", "pid": PIDS[0], "amt": {"v": rng.choice([1e4, 1e5, 5e5, 43210.99])}})
+    emit({"k": "mkpf", "pid": pids_run[0]})
+    sh["pids"].append(pids_run[0])
+    emit({"k": "psub", "pid": pids_run[0], "amt": {"v": rng.choice([1e4, 1e5, 5e5, 43210.99])}})
 
     def tick_op():
         if rng.random() < closed_bias:
@@ -179,7 +185,7 @@ def generate(rng, focus, tier="quick"):
 
     def fault_op():
         kind = rng.choice(enabled)
-        pid = rng.choice(sh["pids"]) if sh["pids"] else PIDS[0]
+        pid = rng.choice(sh["pids"]) if sh["pids"] else pids_run[0]
         if kind == "neg_amount":
             return {"k": rng.choice(["asub", "awd", "psub", "pwd"]), "pid": pid,
                     "amt": {"v": -rng.choice([0.01, 1.0, 1e3, _amount(rng) + 0.01])}, "fault": kind}
@@ -247,6 +253,9 @@ def generate(rng, focus, tier="quick"):
                 emit(o)
             return seq[-1]
         if kind in ("clock_regress", "clock_regress_pending"):
+            if kind == "clock_regress_pending" and rng.random() < 0.7:
+                # make sure something is pending in the youngest portfolio (the one with the latest clock)
+                emit({"k": "order", "pid": sh["pids"][-1], "asset": rng.choice(assets), "qty": {"v": _qty(rng)}})
             stay = rng.random() < 0.5
             op = {"k": "tick", "back": rng.choice([1, 60, 3600, 7 * 3600, DAY, 3 * DAY, 30 * DAY]),
                   "stay": stay, "fault": kind}
@@ -349,10 +358,10 @@ def generate(rng, focus, tier="quick"):
                     ops[-1]["ahead"] = rng.choice([1, 60, 3600, 6 * 3600, DAY, 2 * DAY])
             sh["held"].add((pid, a))
         elif r < 0.96:
-            emit({"k": "broker2", "pid": rng.choice(PIDS), "funds": rng.choice([1e3, 1e5, 77.7]),
+            emit({"k": "broker2", "pid": rng.choice(pids_run), "funds": rng.choice([1e3, 1e5, 77.7]),
                   "asset": rng.choice(assets), "qty": _qty(rng)})
         elif r < 0.97 and len(sh["pids"]) < max_pf:
-            pid = PIDS[len(sh["pids"])]
+            pid = pids_run[len(sh["pids"])]
             sh["pids"].append(pid)
             emit({"k": "mkpf", "pid": pid})
             if rng.random() < 0.8:
